@@ -44,12 +44,47 @@ def load(path):
     return bb, list(bb.signature), conds
 
 
-def derived_queries(rng, sig, conds, k):
+def real_partition(bb, weakly=False):
+    """tolerance partition as positions, computed by the code under test (used only to SHAPE queries for
+    bases too large to enumerate; a wrong partition makes the queries less targeted, nothing else)"""
+    try:
+        from inference.consistency_sat import consistency_indices
+        part, _ = consistency_indices(bb, 'z3', weakly)
+        if not part:
+            return None
+        pos = {k: i for i, k in enumerate(bb.conditionals.keys())}
+        layers = [[pos[k] for k in layer] for layer in part]
+        return layers[:-1] if weakly else layers
+    except Exception:
+        return None
+
+
+def tie_query_large(rng, sig, conds, layers):
+    cand = [l for l in layers if len(l) >= 2]
+    if not cand:
+        return None
+    layer = cand[-1] if rng.random() < 0.6 else rng.choice(cand)
+    js = rng.sample(layer, min(len(layer), rng.randint(2, 3)))
+    A = None
+    for j in js:
+        Bj, Aj = conds[j]
+        t = And(Aj, Not(Bj))
+        A = t if A is None else Or(A, t)
+    Bq, _ = conds[rng.choice(layer)] if rng.random() < 0.6 else rng.choice(conds)
+    return (Bq if rng.random() < 0.6 else Not(Bq), A)
+
+
+def derived_queries(rng, sig, conds, k, layers=None):
     """queries for large bases with a True/False mix: own rules, strengthened antecedents,
-    weakened consequents, chained rules, conjunctions of consequents"""
+    weakened consequents, chained rules, conjunctions of consequents, tie-forcing antecedents"""
     qs = []
     for _ in range(k):
         r = rng.random()
+        if layers and rng.random() < 0.3:
+            q = tie_query_large(rng, sig, conds, layers)
+            if q is not None:
+                qs.append(q)
+                continue
         B, A = rng.choice(conds)
         if r < 0.15:
             qs.append((B, A))
